@@ -118,7 +118,8 @@ def refresh_functions(index: Index, cls: ClassInfo) -> Dict[int, set]:
 def register_cached_properties(index: Index, cls: ClassInfo):
     """every functools.cached_property of the hierarchy is a cache: unknown ones are registered with the set of
     state attributes their getter reads (conservative: dirty whenever one of them is written, whatever the kind)."""
-    from .components import CACHE_PARTS, EXTRA_CACHE_READS
+    from .components import CACHE_PARTS, EXTRA_CACHE_READS, bind_tables
+    bind_tables(index)
     for c in cls.mro:
         for name, p in c.props.items():
             if p.cached and name not in CACHE_PARTS:
